@@ -133,8 +133,8 @@ def gen_cases(rng, tier):
             far = rng.choice([1, 40, 1e3, 1e6])
             pts = [(-far, -far), (510 + far, 510 + far)] if sx * sy > 0 else [(510 + far, -far), (-far, 510 + far)]
         elif kind == 2:
-            w = h = 560
-            x0, y0 = rng.randint(2, 40), rng.randint(2, 40)
+            w = h = rng.choice([560, 560, 1200])
+            x0, y0 = (rng.randint(2, 40), rng.randint(2, 40)) if w == 560 else (rng.choice([300, 600, 650]), rng.randint(2, 600))
             ax, ay = (x0 if sx > 0 else x0 + d), (y0 if sy > 0 else y0 + d)
             pts = [(ax, ay), (ax + sx * d, ay + sy * d * rng.choice([1, 1, 0.75]))]
         else:
@@ -143,6 +143,14 @@ def gen_cases(rng, tier):
         if rng.random() < 0.5:
             pts.reverse()
         cases.append(("hair_px", [rng.randrange(3), 1 if i % 8 < 6 else 0, 0, w, h, 0] + list(IDENT) + poly_ops(pts, close=False, grid=64.0)))
+    # the same, every direction and the three lengths around 512, anti-aliased, in the middle of a 1200 x 1200 pixmap (room on
+    # every side: a slope with the wrong sign walks off to the other side of the start point)
+    for (sx, sy) in [(1, 1), (1, -1), (-1, 1), (-1, -1)]:
+        for d in ([512.0, 512.0 - 1 / 64.0, 512.0 + 1 / 64.0] if tier != "quick" else [512.0]):
+            ax, ay = (300.0 if sx > 0 else 900.0), (320.0 if sy > 0 else 880.0)
+            for dy in ([d, 0.75 * d] if tier != "quick" else [d]):
+                pts = [(ax, ay), (ax + sx * d, ay + sy * dy)]
+                cases.append(("hair_px", [0, 1, 0, 1200, 1200, 0] + list(IDENT) + poly_ops(pts, close=False, grid=64.0)))
     # tiled pixmaps (wider than 8191): hairlines running in the narrow band just past the tile seam, crossing it, and ending on it
     for i in range(6 if tier == "quick" else 60):
         w, h = 8200, 40
